@@ -4,6 +4,7 @@
 //!   expr <file>                parse the file's tokens as ONE expression, Debug of the result
 //!   errors <file> [--no-std]   compile; prints `OK <bytes>` or each error as Debug and Display
 //!   short <file> <n>           compile into a writer that accepts at most n bytes per write() call
+//!   seq <file1> <file2> ..     compile the files one after the other in this thread; prints the result of each
 use std::io::Write;
 use std::path::{Path, PathBuf};
 
@@ -67,6 +68,17 @@ fn main() {
             let mut w = ShortWriter { accepted: Vec::new(), max: n, calls: 0, offered: 0 };
             let r2 = sylt_parser::tree(&file, read, !no_std).and_then(|tree| sylt_compiler::compile(&mut w, tree, None));
             println!("full_ok={} short_ok={} full_len={} accepted_len={} offered={} calls={} equal={}", r1.is_ok(), r2.is_ok(), full.len(), w.accepted.len(), w.offered, w.calls, full == w.accepted);
+        }
+        "seq" => {
+            for f in args[2..].iter().filter(|a| !a.starts_with("--")) {
+                let file = PathBuf::from(f);
+                let mut out: Vec<u8> = Vec::new();
+                let res = sylt_parser::tree(&file, read, !no_std).and_then(|tree| sylt_compiler::compile(&mut out, tree, None));
+                match res {
+                    Ok(()) => println!("FILE {} OK {} {:x}", f, out.len(), out.iter().fold(0u64, |h, b| h.wrapping_mul(1099511628211).wrapping_add(*b as u64))),
+                    Err(errs) => { println!("FILE {} ERR", f); for e in errs { println!("ERR {:?}", e); } }
+                }
+            }
         }
         _ => { eprintln!("unknown command"); std::process::exit(2); }
     }
